@@ -482,13 +482,14 @@ META = {
                   "compute_fn or not; cycles included; 87,172 cases): inside the guard link_class=0 the model's run is what the "
                   "independent Spec/LinkSpec.v demands (each object constructed once, sources first, every linked parameter "
                   "receives the source object / attribute / compute_fn result, compute_fn called once, cycle-closing link "
-                  "rejected at that call). Three refuted-unguarded witnesses (C16_nested_target_order_refuted, "
+                  "rejected at that call); C16_small_space_three_links: the same for every 3-link sequence over the layouts with <=2 "
+                  "objects (25,120 cases), both code variants. Three refuted-unguarded witnesses (C16_nested_target_order_refuted, "
                   "C16_source_under_group_refuted, C16_nested_self_link_refuted) = the three open findings. "
                   "Only exercised by the correspondence (not proved in general): that the values received, the exactly-once "
                   "construction and the compute_fn calls of the model satisfy the spec beyond the small space (longer link "
-                  "sequences, two-source links, four-object nested layouts), and that model = implementation (11.9k cases quick, "
-                  "~100k thorough: every digraph on <=3 nodes, every loop-free one on 4, all 543 DAGs on four class groups in all "
-                  "declaration orders).",
+                  "sequences, two-source links, four-object nested layouts), and that model = implementation (14.2k cases quick, "
+                  "~120k thorough: every digraph on <=3 nodes, every loop-free one on 4, all 543 DAGs on four class groups in all "
+                  "declaration orders, component names that are string prefixes of one another in all declaration orders).",
     "level_note": "Trusted: Coq kernel/VM; the hand-written models Model/Graph.v and Model/LinkOrder.v outside the enumerated "
                   "cases (in particular the abstraction of a parser to a list of components with dest/kind/units, and of "
                   "find_subclass_action_or_class_group to resolve_src); the observation harness tie/impl/c16_*.py with its scratch "
